@@ -102,6 +102,12 @@ def run(ctx):
     rc, a_m, _ = run_parallel(FMODEL, alines, 8)
     aidx, a_c, a_m = diff_streams(alines, a_c, a_m)
     if proof_broken: aidx = []
+    # --- the vtable cache itself: same reference only for byte-identical vtables, references == model
+    from props import c03
+    vt_stats, vt_fail, vt_tie = c03.vtcache_stage(ctx, h_build, 300 if quick else 4000)
+    if vt_fail and not (vt_tie and proof_broken):
+        if vt_tie: vt_fail["theorems_no_longer_tied"] = [t["name"] for t in ths]
+        violation(ctx, "vtcache_%d.json" % ctx.seed, vt_fail, no_failing_input=vt_tie)
     # --- histories
     nblocks = 24 if quick else 160
     cycles = 4 if quick else 40
@@ -251,7 +257,7 @@ def run(ctx):
                 "k-th emit fails, abandoned build + open user frame, 10..200 tables left open}; reset (reduce 0/1); footprint; build X] repeated for "
                 "%d cycles; every `build X` must equal a fresh C builder's output under the same settings and (no limits) the Lean model's fresh build; "
                 "footprint after reset in the last cycle must not exceed cycle 1. default_alloc growth policy vs model on random request sequences." % cycles,
-        "refmap_reset_histories": rm_lines, "blocks": len(blocks), "cycles": cycles, "builds_after_reset": nbuild, "ops": kinds, "alloc_sequences": len(alines),
+        "refmap_reset_histories": rm_lines, "vtable_cache_unit": vt_stats, "blocks": len(blocks), "cycles": cycles, "builds_after_reset": nbuild, "ops": kinds, "alloc_sequences": len(alines),
         "footprint_samples": sum(len(v) for per in mems.values() for v in per.values()),
         "traces_validated_against_impl": nbuild + len(alines), "correspondence_disagreements": len(corr) + len(aidx), "spec_oracle_failures": len(spec) + len(grow)})
     ctx.samples = [{"history": b[:8]} for b in blocks[:2]]
